@@ -1042,7 +1042,12 @@ impl<'a> G<'a> {
             let name = format!("d_{}", i);
             let labelled = self.r.chance(80);
             let pre = if labelled { format!("{}: ", name) } else { String::new() };
-            let (txt, word) = match self.r.below(7) {
+            let at_top = self.lines.last().map(|l| l.text.to_ascii_lowercase().contains("set ") && (l.text.to_ascii_lowercase().contains("ff") || l.text.contains("655"))).unwrap_or(false);
+            let (txt, word) = match if at_top { 7 + self.r.below(3) } else { self.r.below(7) } {
+                // right after a `set` to the top of memory: something long enough to cross 0xFFFFF
+                7 => (format!("db \"{}\"", self.r.pick(&["The quick brown fox jumps over it", "0123456789abcdef0123456789", "wrap around the end of memory!"])), false),
+                8 => (format!("dw \"{}\"", self.r.pick(&["wide and long enough", "0123456789abcdefgh"])), true),
+                9 => (format!("db [{}, {}]", self.imm8(), 17 + self.r.below(40)), false),
                 0 => (format!("db {}", self.imm8()), false),
                 1 => (format!("dw {}", self.imm16()), true),
                 2 => (format!("db [{}]", self.r.below(40)), false),
